@@ -41,10 +41,111 @@ def filler(lang, n, tag):
     return "".join("function filler_%s_%d(value_%d) {\n  return value_%d;\n}\n\n" % (tag, i, i, i) for i in range(n))
 
 
+PY_KEEP = {"self", "cls", "_", "__name__", "args", "kwargs"}
+
+
+def rename_py(text, style):
+    """Consistently rename the variables an example binds itself (assignment / loop / with / comprehension targets and parameters): every Name / arg node
+    of that name, by position. Function, class, attribute, keyword-argument and imported names are untouched."""
+    try:
+        tree = ast.parse(text)
+    except (SyntaxError, ValueError):
+        return None
+    if any(isinstance(n, (ast.Global, ast.Nonlocal)) for n in ast.walk(tree)):
+        return None
+    imported = {(a.asname or a.name).split(".")[0] for n in ast.walk(tree) if isinstance(n, (ast.Import, ast.ImportFrom)) for a in n.names}
+    defs = {n.name for n in ast.walk(tree) if isinstance(n, (ast.FunctionDef, ast.AsyncFunctionDef, ast.ClassDef))}
+    kwnames = {k.arg for n in ast.walk(tree) if isinstance(n, ast.Call) for k in n.keywords if k.arg}
+    bound = {n.id for n in ast.walk(tree) if isinstance(n, ast.Name) and isinstance(n.ctx, ast.Store)}
+    bound |= {a.arg for n in ast.walk(tree) if isinstance(n, ast.arguments) for a in n.args + n.kwonlyargs + n.posonlyargs}
+    bound -= PY_KEEP | imported | defs | kwnames
+    bound = {b for b in bound if not (b.isupper() or b.startswith("__"))}  # constants keep their (rule-relevant) spelling
+    bound = {b for b in bound if not re.search(r"verbose|debug", b, re.I)}  # the conditional-verbose rule is documented to key on these flag names
+    if not bound:
+        return None
+    new = {b: (b + "_rn" if style == "suffix" else "w%d_rn" % i) for i, b in enumerate(sorted(bound))}
+    spots = []
+    for n in ast.walk(tree):
+        if isinstance(n, ast.Name) and n.id in new:
+            spots.append((n.lineno, n.col_offset, n.id))
+        elif isinstance(n, ast.arg) and n.arg in new:
+            spots.append((n.lineno, n.col_offset, n.arg))
+    lines = text.split("\n")
+    for ln, col, name in sorted(set(spots), reverse=True):
+        raw = lines[ln - 1].encode("utf-8")
+        if raw[col:col + len(name.encode())] != name.encode():
+            return None
+        lines[ln - 1] = (raw[:col] + new[name].encode() + raw[col + len(name.encode()):]).decode("utf-8")
+    out = "\n".join(lines)
+    try:
+        ast.parse(out)
+    except (SyntaxError, ValueError):
+        return None
+    return out
+
+
+def rename_ts(text, lang, style):
+    """The same for TypeScript / JavaScript with a bare tree-sitter parse: names declared by const/let/var declarators, parameters and for-in/of loops;
+    every `identifier` node of that name is replaced (property names are other node types and stay)."""
+    import tree_sitter
+    import tree_sitter_typescript as m
+
+    parser = tree_sitter.Parser(tree_sitter.Language(m.language_typescript()))
+    src = text.encode("utf-8")
+    root = parser.parse(src).root_node
+    bound, shorthand, idents = set(), set(), []
+
+    def walk(n):
+        if n.type == "identifier":
+            idents.append(n)
+            par = n.parent
+            if par is not None and ((par.type == "variable_declarator" and par.child_by_field_name("name") == n)
+                                    or par.type in ("required_parameter", "optional_parameter", "formal_parameters")
+                                    or (par.type in ("for_in_statement",) and par.child_by_field_name("left") == n)):
+                bound.add(src[n.start_byte:n.end_byte].decode())
+        elif n.type in ("shorthand_property_identifier", "shorthand_property_identifier_pattern"):
+            shorthand.add(src[n.start_byte:n.end_byte].decode())
+        for c in n.children:
+            walk(c)
+    walk(root)
+    bound -= shorthand
+    bound = {b for b in bound if not b.isupper() and b not in ("console", "this", "undefined")}
+    if not bound:
+        return None
+    new = {b: (b + "_rn" if style == "suffix" else "w%d_rn" % i) for i, b in enumerate(sorted(bound))}
+    out = src
+    for n in sorted(idents, key=lambda x: -x.start_byte):
+        name = src[n.start_byte:n.end_byte].decode()
+        if name in new:
+            out = out[:n.start_byte] + new[name].encode() + out[n.end_byte:]
+    return out.decode("utf-8")
+
+
 def embed(row, kind, rng):
     """-> (text, line mapping old->new as function, multiplier) or None when not applicable."""
     text, lang = row["text"], row["lang"]
     nlines = text.count("\n")
+    if kind.startswith("rename-"):
+        # identifier renaming, alone or combined with an enclosing scope: "rename-suffix", "rename-fresh+ts-in-arrow", ...
+        style, _, inner = kind[len("rename-"):].partition("+")
+        renamed = rename_py(text, style) if lang == "py" else rename_ts(text, lang, style) if lang in ("ts", "js") else None
+        if renamed is None or renamed == text:
+            return None
+        return embed(dict(row, text=renamed), inner, rng) if inner else (renamed, [lambda l: l], 1)
+    if kind.startswith("ts-in-") and lang in ("ts", "js"):
+        if re.search(r"^\s*(import|export)\b", text, re.M):
+            return None
+        heads = {"ts-in-function": ["function wrapperEmbedded(flagEmbedded) {"], "ts-in-arrow": ["const wrapperEmbedded = (flagEmbedded) => {"],
+                 "ts-in-fexpr": ["const wrapperEmbedded = function (flagEmbedded) {"], "ts-in-if": ["if (FLAG_EMBEDDED) {"],
+                 "ts-in-method": ["class OuterEmbedded {", "  run(flagEmbedded) {"], "ts-in-objmethod": ["const holderEmbedded = {", "  run(flagEmbedded) {"]}.get(kind)
+        if heads is None:
+            return None
+        tails = {"ts-in-function": ["}"], "ts-in-arrow": ["};"], "ts-in-fexpr": ["};"], "ts-in-if": ["}"], "ts-in-method": ["  }", "}"], "ts-in-objmethod": ["  },", "};"]}[kind]
+        if "`" in text:
+            return None  # re-indenting would change multi-line template contents
+        ind = "  " * len(heads)
+        body = "".join((ind + ln if ln.strip() else ln) + "\n" for ln in text.split("\n")[:-1])
+        return "\n".join(heads) + "\n" + body + "\n".join(tails) + "\n", [lambda l, o=len(heads): l + o], 1
     if kind == "as-is":
         return text, [lambda l: l], 1
     if kind == "after-filler":
@@ -167,8 +268,19 @@ def run(ctx):
                 kinds += ["before-filler"]
             else:
                 kinds += ["after-filler", "before-filler", "in-function", "in-if", "repeat2", "repeat3", "in-function-class", "in-function-if", "in-function-try", "in-class-class"]
+                ts_scopes = ["ts-in-function", "ts-in-arrow", "ts-in-fexpr", "ts-in-if", "ts-in-method", "ts-in-objmethod"]
+                renames = ["rename-suffix", "rename-fresh"]
+                if r["lang"] in ("ts", "js"):
+                    kinds += ts_scopes + renames + ["%s+%s" % (a, b) for a in renames for b in ts_scopes]
+                else:
+                    kinds += renames + ["%s+%s" % (a, b) for a in renames for b in ("in-function", "in-function-if", "in-class-class")]
                 if ctx.quick:
-                    kinds = ["as-is", "repeat2", rng.choice(["in-function-class", "in-function-if", "in-function-try"])] + rng.sample([k for k in kinds[1:] if k != "repeat2"], 2)
+                    if r["lang"] in ("ts", "js"):
+                        kinds = ["as-is"] + rng.sample(ts_scopes, 2) + ["rename-suffix", "rename-fresh+" + rng.choice(ts_scopes), "rename-suffix+" + rng.choice(ts_scopes)]
+                    else:
+                        kinds = ["as-is", "repeat2", rng.choice(["in-function-class", "in-function-if", "in-function-try"]), "rename-" + rng.choice(["suffix", "fresh"]),
+                                 "rename-%s+%s" % (rng.choice(["suffix", "fresh"]), rng.choice(["in-function", "in-function-if"]))] + \
+                            rng.sample(["after-filler", "before-filler", "in-function", "in-if", "repeat3", "in-class-class"], 2)
         for kind in kinds:
             e = embed(r, kind, rng)
             if e is None:
